@@ -525,9 +525,10 @@ pub fn analyse(rep: &RunReport) -> Verdict {
                 continue;
             }
             let o = st.obj.unwrap_or(0);
-            let has_fs = ops.iter().any(|r| r.kind == Kind::FutureSync && r.obj == Some(o));
+            let has_fs = ops.iter().any(|r| (r.kind == Kind::FutureSync || r.kind == Kind::Pipe) && r.obj == Some(o));
             if let Some(td) = world.objs[o].table_dropped_at {
-                if td < snap.seq && !has_fs && world.objs[o].drop_ret.map_or(false, |x| x < snap.seq) && snap.value_drops.get(o) == Some(&0) {
+                // every thread is quiet, so nobody holds a temporary owner: only the pipe can be keeping it alive
+                if td < snap.seq && !has_fs && min_pool(prog) >= 1 && !world.objs[o].panic_injected && snap.value_drops.get(o) == Some(&0) {
                     v(&mut out, "C11", "pipe_in_kept_object_alive", &[pid], snap.seq, format!("every owner of object {} was released but its value was still alive at quiescence while pipe_in on stream {} was open", o, s));
                 }
             }
